@@ -253,6 +253,7 @@ type jop struct {
 	Vs      []int64    `json:"validators,omitempty"`
 	Dt      int64      `json:"dt,omitempty"`
 	To      int        `json:"to,omitempty"`
+	Note    string     `json:"note,omitempty"`
 	Res     string     `json:"res"`
 	Err     string     `json:"err,omitempty"`
 	Status  string     `json:"status_after,omitempty"`
@@ -281,6 +282,7 @@ type hist struct {
 	propSeq int
 	dist    hx.Counter
 	signers bool
+	cur     config // the settings in force (changed by setProp)
 }
 
 func (x *hist) blockCtx() sdk.Context {
@@ -688,7 +690,7 @@ func main() {
 		cf := configs[cfg]
 		setProps(app, c, cf)
 		vs := tmtypes.NewValidatorSet([]*tmtypes.Validator{tmtypes.NewValidator(mustTm(w.keys[genID]), 1)})
-		return &hist{w: w, cfg: cfg, ctx: c, h: H0, t: T0, valset: vs, prev: initSnap, dist: dist, signers: true}
+		return &hist{w: w, cfg: cfg, ctx: c, h: H0, t: T0, valset: vs, prev: initSnap, dist: dist, signers: true, cur: cf}
 	}
 	finish := func(x *hist, kind string) {
 		cases = append(cases, fmt.Sprintf("Case %d %s", x.cfg, hx.List(x.steps)))
@@ -717,6 +719,23 @@ func main() {
 			finish(x, sysName(st, t))
 		}
 	}
+	tcs := thrCases()
+	nThr := len(tcs)
+	if !(os.Getenv("VERIF_TIER") == "thorough" || os.Getenv("VERIF_SYS") == "all") {
+		rr := r.Fork()
+		var pick []thrCase
+		for i := 0; i < 40; i++ {
+			pick = append(pick, tcs[rr.Intn(len(tcs))])
+		}
+		tcs = pick
+	}
+	for _, tc := range tcs {
+		x := newHist(0)
+		runThr(x, genID, tc)
+		finish(x, fmt.Sprintf("thr:mc%d:max%d:%s->%d:after%d", tc.mc0, tc.maxm0, propNames[tc.which], tc.val, tc.k))
+	}
+	dist["threshold-stream:run"] = len(tcs)
+	dist["threshold-stream:existing"] = nThr
 	dist["systematic:tuples-run"] = len(plan)
 	dist["systematic:triples-existing"] = nTriples
 	// ---- generated histories
@@ -785,6 +804,9 @@ func kindClass(k string) string {
 	}
 	if strings.HasPrefix(k, "sys:") {
 		return "systematic"
+	}
+	if strings.HasPrefix(k, "thr:") {
+		return "threshold-stream"
 	}
 	return k
 }
